@@ -145,9 +145,9 @@ def getattr (C : Cls) (W : World V) (s : State V) (f : Field) : Option V :=
 def coerce (C : Cls) (W : World V) (s : State V) (p : Field) : State V :=
   if p.noOutput then s                                            -- :223
   else if !(p.deps.all s.data.has) &&                             -- :226
-      p.deps.any (fun d => match getField C d with                -- :229-232
+      p.deps.any (fun d => !s.data.has d && (match getField C d with    -- :229-235
         | none => true
-        | some df => !s.attrs.has df.attname) then s
+        | some df => !s.attrs.has df.attname)) then s
   else match compute C W s p with
     | none => s                                                   -- :236-243 getter failed: warn, keep
     | some v => { s with data := s.data.set p.name v }            -- :252-253
